@@ -21,7 +21,7 @@ NOT_APPLICABLE = {}
 CHECKS = {
     "C01": {
         "engine": "benum", "level": "exploration",
-        "technique": "exhaustive enumeration of (data set, writer option vector) pairs - every boundary value of every field one factor at a time under all 7296 option vectors, reduced products, block-boundary and 32 MiB families, header boxes and an exhaustive sweep of the PBF header box conversion - written with the real Writer, checked by an independent PBF framing parser, read back with the real Reader and compared with a per-format carry() expectation",
+        "technique": "exhaustive enumeration of (data set, writer option vector) pairs - every boundary value of every field one factor at a time under all 7296 option vectors, reduced products, block-boundary and 32 MiB families, header boxes and an exhaustive sweep of the PBF header box conversion - written with the real Writer, checked by an independent PBF framing parser, read back with the real Reader and compared with a per-format carry() expectation; plus a sweep of every initial capacity (64..640|1280 step 8, hook H8) of the decoders' output buffers on the read side",
         "text": "Every boundary value of every field of nodes, ways, relations and changesets (ids up to +-2^63-1, uint32 extremes, undefined/valid/out-of-range locations, strings with structural characters and 1-4 byte UTF-8 up to 1024 bytes, 0..many tags/refs/members, discussions) is written under EVERY option vector {osm, osh, osc, pbf, osh.pbf, opl} x dense x blob compression x 32 metadata subsets x locations_on_ways x force_visible_flag x {none, gz, bz2} x pool threads and read back; plus 1-3 object products, 7999/8000/8001/16001-object blocks, blocks crossing 0.95 x 32 MiB and 32 MiB, 0..2 header boxes, and (thorough) every fixed-point coordinate through the PBF header box encoder/decoder. Read-back must equal carry(D, o); every blob must respect the format limits.",
         "note": "The data domain is unbounded: the check covers boundary alphabets and complete option products, not all object sequences. Objects a vector cannot express (deleted objects without a visible flag, changesets in PBF, XML-inexpressible strings) are dropped for that vector and counted; behaviours pinned by the repository's tests (PBF deleted-node location, XML changeset 2^32-1) are domain restrictions.",
     },
@@ -47,19 +47,19 @@ CHECKS = {
     },
     "C06": {
         "engine": "benum", "level": "exploration",
-        "technique": "exhaustive enumeration of segmentations (every single cut, every pair of cuts, all uniform piece sizes, one-byte pieces around every position) of spec-generated seed files and all their truncations, delivered to the real parsers through a pre-filled input queue, a chunking decompressor under the full Reader, small input buffers and short read(2) answers; result compared with the one-piece baseline",
+        "technique": "exhaustive enumeration of segmentations (every single cut, every pair of cuts, all uniform piece sizes, one-byte pieces around every position) of spec-generated seed files and all their truncations, delivered to the real parsers through a pre-filled input queue, a chunking decompressor under the full Reader, small input buffers, one short read(2) answer at every offset and read(2) answers capped at k bytes for every call; result compared with the one-piece baseline",
         "text": "46 seed files in OPL, XML, o5m/o5c and PBF (written by specification-derived encoders) and every proper prefix of two seeds per format are parsed under every single cut, every uniform piece size, one-byte pieces around every position and every pair of cuts (quick: pairs on the 30 small seeds; thorough: all seeds and prefixes), through four delivery paths (parser on a pre-filled queue, full Reader with a chunking decompressor, real plain/gzip/bzip2 files with input buffer sizes 1,2,3,5,7,64, short reads at every offset); header, object dump and error type/message must equal the unsplit baseline.",
         "note": "Three or more simultaneous cuts are only covered through the uniform and one-byte families; across the PBF fd path and queue path only header, objects and eof-or-error are compared (the error wording differs by design).",
     },
     "C08": {
         "engine": "benum", "level": "fault_enumeration",
-        "technique": "exhaustive enumeration of OS fault plans on the real Writer (every byte offset via RLIMIT_FSIZE and interposed write/fwrite with ENOSPC/EIO, every n-th write/fsync/close/fwrite/fflush/fclose failing, EINTR once, every short-write length, encoder failure at every position) x formats x compressions x fsync x histories in forked children; plus stateless schedule exploration (vsched, <= 1|2 deviations) of the Writer with a failing mock compressor / encoder",
+        "technique": "exhaustive enumeration of OS fault plans on the real Writer (every byte offset via RLIMIT_FSIZE and interposed write/fwrite with ENOSPC/EIO, every n-th write/fsync/close/fwrite/fflush/fclose failing, EINTR once, every short-write length, encoder failure at every position) x formats x compressions x fsync x histories in forked children; plus stateless schedule exploration (vsched, <= 1|2 deviations) of the Writer with a failing mock compressor / encoder (every std::atomic of the library is a scheduling point); a close() of a descriptor number the library has already released is reported",
         "text": "{xml, opl, pbf} x {none, gz, bz2} x fsync {no, yes} x five write histories x queue/pool sizes x fast|paced producer: the first write reaching every byte offset of the output fails (kernel EFBIG through RLIMIT_FSIZE; ENOSPC/EIO through interposed write/fwrite), every n-th write/fsync/close/fwrite/fflush/fclose fails, EINTR once, short writes of every length, the OPL encoder throws at every way position; either a call throws or the file is complete (own inflate/bzip2 framing check + Reader decode equals the objects handed over) and close() returns its size; a fired injector followed by success is 'error-lost'; a Writer in error state must refuse data; threads must finish. The vsched harness explores all schedules with <= 1|2 deviations of Writer + failing mock compressor.",
         "note": "Encoder failure exists for OPL only (a tag value ending in an incomplete UTF-8 sequence; the XML and PBF encoders cannot throw on the data handed over). bzip2 gets ENOSPC/EIO at the stdio level only (write() inside glibc's stdio cannot be interposed; the kernel EFBIG fault covers that path); quick strides the offsets of the larger histories (boundaries +-1 always included), thorough enumerates every offset for the small histories. Descriptor/memory leaks on error paths are counted, not judged.",
     },
     "C09": {
         "engine": "benum", "level": "fault_enumeration",
-        "technique": "exhaustive enumeration of stream splittings (1..3 concatenated streams at boundary-aligned positions), every truncation length and every single-byte corruption (8 bit flips | 255 values) of small compressed files, large-file truncations around every read-ahead size and trailer, x {gzip, bzip2} x {fd, memory buffer} x input buffer sizes {1 MiB, 4096, 7}; output compared with Python's gzip/bz2 as reference decompressor",
+        "technique": "exhaustive enumeration of stream splittings (1..3 concatenated streams at boundary-aligned positions), every truncation length and every single-byte corruption (8 bit flips | 255 values) of small compressed files, large-file truncations around every read-ahead size and trailer, x {gzip, bzip2} x {fd, memory buffer} x input buffer sizes {1 MiB, 4096, 7}; output compared with Python's gzip/bz2 as reference decompressor; valid files and truncations of the fd variants also through the real ReadThreadManager and input queue, compared with the direct run",
         "text": "Every small file (1-3 streams) under every truncation length and every byte position x 8 bit flips (thorough: 255 values); 2-3 stream files with every stream/file end placed on and around 4096, 5000n, 8192, 10240; 19 payload sizes x every splitting into 1..3 streams; large files truncated around every boundary; round trips of the library's own compressors - each through the real fd and memory-buffer decompressors: bytes equal to the reference, offset() <= file size, empty chunk only at the true end, truncated/corrupted streams never accepted as a proper prefix.",
         "note": "Corruptions for which the reference itself returns bytes, trailer truncations that still deliver the whole payload and the zero-length file are left open (counted). zlib's gzread policy of ignoring trailing garbage gives three known findings.",
     },
@@ -72,7 +72,7 @@ CHECKS = {
     },
     "C11": {
         "engine": "benum", "level": "model_checking",
-        "technique": "explicit-state enumeration of relation/member histories (all relation sets x interest predicates x member-stream subsets x feeding modes) replayed on the real RelationsManager/MultipolygonManager, set-based reference model compared after every handler call, canonical manager states hashed (ASan, NDEBUG and assert builds)",
+        "technique": "explicit-state enumeration of relation/member histories (all relation sets x interest predicates x member-stream subsets x feeding modes) replayed on the real RelationsManager/MultipolygonManager, set-based reference model compared after every handler call, canonical manager states hashed (ASan, NDEBUG and assert builds, and a build whose ItemStash buffer starts at 256 bytes - hook H9 - so that it moves within short histories)",
         "text": "1..3 relations with member lists of length <= 2|3 over two node, two way and two relation ids (duplicates, shared members, self references) x every new_relation/new_member predicate x every subset of the referenced ids as the sorted member stream x 4 feeding/flush modes x 7 type-flag sets and the multipolygon manager; "
                 "completion exactly once at the last wanted member, member retrieval inside the callback, release afterwards (lookup gives nullptr), incomplete list, not-in-any-relation callbacks and stash size are compared with the model on every step; long families with > 10 000 removals trigger stash collection with live handles.",
         "note": "Relations of interest without any wanted member and the order of several completions in one step are left open (counted).",
@@ -100,7 +100,7 @@ CHECKS = {
     },
     "C05": {
         "engine": "vsched", "level": "model_checking",
-        "technique": "stateless model checking of the real Reader pipeline (read thread, parser thread, pool workers, consumer) under a controlled scheduler: delay-bounded and preemption-bounded exhaustive schedule exploration x configuration product",
+        "technique": "stateless model checking of the real Reader pipeline (read thread, parser thread, pool workers, consumer) under a controlled scheduler: delay-bounded and preemption-bounded exhaustive schedule exploration x configuration product; every std::atomic of the library and zlib's uncompress() are scheduling points; sweep of every decoder buffer capacity 64..640 (hook H8)",
         "text": "The real Reader reads 11-object OPL/XML/PBF files delivered in 64-byte pieces into tiny parser buffers under every schedule with at most k deviations (k iterated 0,1,2(,3)) for a covering set of "
                 "pool sizes, queue sizes, entity masks, buffers_type, read_meta and PBF pool on/off, plus the configuration product (all 16 masks with every format) at bound 0; the delivered object sequence is compared "
                 "with the abstract object list on every complete execution and read() after end of data must throw.",
@@ -116,7 +116,7 @@ CHECKS = {
     },
     "C14": {
         "engine": "benum", "level": "exploration",
-        "technique": "exhaustive enumeration of every Unicode scalar value, every short sequence over a structural alphabet and every byte string of length <= 4 (guard page / ASan) through the real escape functions and parsers",
+        "technique": "exhaustive enumeration of every Unicode scalar value, every short sequence over a structural alphabet and every byte string of length <= 4 (guard page / ASan) through the real escape functions and parsers; every ordered pair of 20 strings in the same string slot of two objects of one buffer through the writers' output blocks (OPLOutputBlock -> opl_parse_line, XMLOutputBlock -> expat)",
         "text": "All 1 112 063 scalar values and all sequences up to length 4|5 over 22 structural symbols are escaped by the OPL and XML writers' functions and parsed back with opl_parse_string / expat; all byte strings of length 1-3 "
                 "(and length 4 over a class-boundary alphabet; thorough: all 255^4) are escaped with the terminating NUL as the last readable byte (ASan and PROT_NONE guard page) - complete inside those spaces.",
         "note": "XML is parsed with expat directly (the library's own XML reader is not in the loop); strings longer than the enumerated lengths are covered only by deterministic families.",
@@ -145,7 +145,7 @@ CHECKS = {
     },
     "C19": {
         "engine": "vsched", "level": "model_checking",
-        "technique": "stateless model checking of the real Queue/Pool code: preemption-bounded (CHESS-style) and delay-bounded exhaustive schedule exploration under a controlled scheduler that owns all pthread/futex synchronisation",
+        "technique": "stateless model checking of the real Queue/Pool code: preemption-bounded (CHESS-style) and delay-bounded exhaustive schedule exploration under a controlled scheduler that owns all pthread/futex synchronisation and switches at every operation on a std::atomic of the library; Promela model of the Queue explored by Spin and bound to the code by two-way trace replay",
         "text": "Closed 2-5 thread drivers on the real Queue<int> and Pool are executed under every schedule with at most k deviations (k iterated 0..2/3 with free switches at blocking "
                 "points, 0..3/4 under delay bounding), including every notify_one waiter choice and timed-wait timeout; loss, duplication, per-producer FIFO, the size bound, "
                 "shutdown wake-up, exactly-once task execution, future results and ~Pool joining are checked on each complete execution; deadlock/livelock/hang are detected by the scheduler.",
